@@ -10,7 +10,9 @@ EXTENDS Integers, Sequences, TLC, Json
 CONSTANTS MaxG
 Patterns == {"readers", "independent", "colwriters", "asyncfile"}
 Tasks(p) == CASE p = "readers" -> {"rows", "pages", "colindex", "offindex", "bloom", "seekrows", "genericread", "find"}
-              [] p = "independent" -> {"write-read", "buffer-sort", "sorting-writer", "merge", "copy", "codecs"}
+              [] p = "independent" -> {"write-read", "buffer-sort", "sorting-writer", "merge", "copy", "codecs",
+                                        \* rows taken apart and put together by reflection (Schema.Deconstruct / Reconstruct and their pools)
+                                        "reflect-write", "reflect-read", "rowbuffer"}
               [] p = "colwriters" -> {"cols"}
               [] p = "asyncfile" -> {"rows", "pages", "seekrows"}
 VARIABLES pat, tasks, fin
